@@ -1,8 +1,9 @@
 package main
 
 // Decode-safety half of C32. All decoding of hostile bytes for the structured types runs in worker
-// subprocesses of this binary (address space limited, progress in a shared file) so that a decoder
-// that kills the process (fatal "out of memory", stack overflow) is attributed to one case.
+// subprocesses of this binary (address space limited to the size at start + 256 MiB, progress in a
+// shared file) so that a decoder that kills the process (fatal "out of memory", stack overflow) is
+// attributed to one case and dies quickly instead of thrashing the machine.
 
 import (
 	"bufio"
@@ -227,24 +228,94 @@ type dcase struct {
 	fieldName string
 	fieldVal  uint64
 	len16At   int // offset of the 16-bit message length in b, -1 if unknown
+	// class of the case: kind + the deviated field (for byte deviations: the field(s) the deviated byte(s) lie in), without
+	// indices and values; known before the input is built
+	class string
 }
 
-// forEachCase enumerates, in a fixed order, every decode-safety case of a seed.
-func forEachCase(sd *seed, thorough bool, f func(c *dcase)) {
+// sink receives the cases of forEachCase. The index of a case is its position in the fixed enumeration order of its phase
+// (whatever is skipped), so a worker death is attributed to the same case by the worker and by the coordinator.
+//
+//	phase "field": the length / count / value field cases (allocation measured); these run first, in a worker whose address
+//	               space is capped so low that a multi-GiB reservation fails at once;
+//	phase "bulk":  truncations and byte deviations.
+type sink struct {
+	phase string
+	idx   int64 // index of the last case offered
+	from  int64
+	skip  map[string]bool // field classes not to run any more (a case of the class already killed a worker)
+	nskip int64
+	f     func(c *dcase)
+}
+
+// next: is the next case (of this kind and class) to be built and run?
+func (s *sink) next(class string) bool {
+	s.idx++
+	if s.idx < s.from {
+		return false
+	}
+	if class != "" && s.skip[class] {
+		s.nskip++
+		return false
+	}
+	return true
+}
+
+func caseClass(c *dcase) string { return c.class }
+
+// forEachCase enumerates, in a fixed order, every decode-safety case of a seed that belongs to the sink's phase.
+func forEachCase(sd *seed, thorough bool, s *sink) {
+	if s.phase != "bulk" {
+		forEachFieldCase(sd, thorough, s)
+	}
+	if s.phase != "field" {
+		forEachBulkCase(sd, thorough, s)
+	}
+}
+
+// byteClasses: for every offset of a seed, the class of the field the byte belongs to ("data" outside the length / count / value fields).
+func byteClasses(sd *seed) []string {
+	out := make([]string, len(sd.b.b))
+	for i := range out {
+		out[i] = "data"
+	}
+	for _, fl := range sd.b.f {
+		name := fl.name
+		if fl.kind != "len16" && fl.name != "sg.type" {
+			name = fmt.Sprintf("%s (%s)", fl.name, fl.kind)
+		}
+		fc := fieldClass(name)
+		for i := fl.off; i < fl.off+fl.w && i < len(out); i++ {
+			out[i] = fc
+		}
+	}
+	return out
+}
+
+func forEachBulkCase(sd *seed, thorough bool, s *sink) {
+	f := s.f
 	orig := sd.b.b
+	bc := byteClasses(sd)
 	// truncation at every offset
 	for n := 0; n <= len(orig); n++ {
-		f(&dcase{seed: sd, kind: "trunc", b: orig[:n:n], aux: sd.aux, desc: fmt.Sprintf("first %d of %d bytes", n, len(orig))})
+		if !s.next("trunc") {
+			continue
+		}
+		f(&dcase{seed: sd, kind: "trunc", b: orig[:n:n], aux: sd.aux, desc: fmt.Sprintf("first %d of %d bytes", n, len(orig)), class: "trunc"})
 	}
 	// every single-byte deviation
 	for i := range orig {
+		cls := "single/" + bc[i]
 		for v := 0; v < 256; v++ {
 			if byte(v) == orig[i] {
 				continue
 			}
+			if !s.next(cls) {
+				continue
+			}
 			b := append([]byte(nil), orig...)
 			b[i] = byte(v)
-			f(&dcase{seed: sd, kind: "single", b: b, aux: sd.aux, desc: fmt.Sprintf("byte %d = %02x", i, v)})
+			f(&dcase{seed: sd, kind: "single", b: b, aux: sd.aux, desc: fmt.Sprintf("byte %d = %02x", i, v), class: cls})
 		}
 	}
 	// double-byte deviations over the boundary byte alphabet (thorough: adjacent pairs over all 65536 values too)
@@ -254,29 +325,42 @@ func forEachCase(sd *seed, thorough bool, f func(c *dcase)) {
 	}
 	for i := 0; i < len(orig); i++ {
 		for j := i + 1; j < len(orig); j++ {
+			cls := "double/" + bc[i] + "+" + bc[j]
 			for _, vi := range dev {
 				for _, vj := range dev {
 					if vi == orig[i] || vj == orig[j] {
 						continue
 					}
+					if !s.next(cls) {
+						continue
+					}
 					b := append([]byte(nil), orig...)
 					b[i], b[j] = vi, vj
-					f(&dcase{seed: sd, kind: "double", b: b, aux: sd.aux, desc: fmt.Sprintf("byte %d = %02x, byte %d = %02x", i, vi, j, vj)})
+					f(&dcase{seed: sd, kind: "double", b: b, aux: sd.aux, desc: fmt.Sprintf("byte %d = %02x, byte %d = %02x", i, vi, j, vj), class: cls})
 				}
 			}
 		}
 		if thorough && i+1 < len(orig) {
+			cls := "double/" + bc[i] + "+" + bc[i+1]
 			for v := 0; v < 65536; v++ {
 				vi, vj := byte(v>>8), byte(v)
 				if vi == orig[i] || vj == orig[i+1] {
 					continue
 				}
+				if !s.next(cls) {
+					continue
+				}
 				b := append([]byte(nil), orig...)
 				b[i], b[i+1] = vi, vj
-				f(&dcase{seed: sd, kind: "double", b: b, aux: sd.aux, desc: fmt.Sprintf("bytes %d,%d = %02x %02x", i, i+1, vi, vj)})
+				f(&dcase{seed: sd, kind: "double", b: b, aux: sd.aux, desc: fmt.Sprintf("bytes %d,%d = %02x %02x", i, i+1, vi, vj), class: cls})
 			}
 		}
 	}
+}
+
+func forEachFieldCase(sd *seed, thorough bool, s *sink) {
+	f := s.f
+	orig := sd.b.b
 	// every length / count / value field set to every boundary value (canonical width and 9-byte width);
 	// for control messages both with the 16-bit message length left alone and corrected
 	var len16 *fld
@@ -287,20 +371,26 @@ func forEachCase(sd *seed, thorough bool, f func(c *dcase)) {
 	}
 	for _, fl := range sd.b.f {
 		if fl.kind == "len16" {
+			cls := "field/" + fieldClass(fl.name)
 			for v := 0; v < 65536; v++ {
 				if !thorough && v > 300 && v < 65536-300 && v%251 != 0 {
+					continue
+				}
+				if !s.next(cls) {
 					continue
 				}
 				b := append([]byte(nil), orig...)
 				b[fl.off], b[fl.off+1] = byte(v>>8), byte(v)
 				f(&dcase{seed: sd, kind: "field", b: b, aux: sd.aux, measure: true, desc: fmt.Sprintf("%s = %d", fl.name, v),
-					hasVal: true, fieldName: fl.name, fieldVal: uint64(v), len16At: fl.off})
+					hasVal: true, fieldName: fl.name, fieldVal: uint64(v), len16At: fl.off, class: cls})
 			}
 			continue
 		}
 		if fl.name == "sg.type" {
 			continue // one raw byte, covered by the single-byte deviations
 		}
+		fc := fieldClass(fmt.Sprintf("%s (%s)", fl.name, fl.kind))
+		cls, clsFix := "field/"+fc, "field-fixlen/"+fc
 		for _, v := range boundary {
 			for _, w := range []int{0, 9} {
 				var enc []byte
@@ -317,29 +407,40 @@ func forEachCase(sd *seed, thorough bool, f func(c *dcase)) {
 				if len16 != nil && fl.off > len16.off {
 					l16 = len16.off
 				}
-				f(&dcase{seed: sd, kind: "field", b: b, aux: sd.aux, measure: true,
-					desc:   fmt.Sprintf("%s (%s) = %d in %d bytes", fl.name, fl.kind, v, len(enc)),
-					hasVal: true, fieldName: fl.name, fieldVal: v, len16At: l16})
+				if s.next(cls) {
+					f(&dcase{seed: sd, kind: "field", b: b, aux: sd.aux, measure: true,
+						desc:   fmt.Sprintf("%s (%s) = %d in %d bytes", fl.name, fl.kind, v, len(enc)),
+						hasVal: true, fieldName: fl.name, fieldVal: v, len16At: l16, class: cls})
+				}
 				if len16 != nil && fl.off > len16.off {
 					pl := len(b) - (len16.off + 2)
 					if pl <= 65535 {
+						if !s.next(clsFix) {
+							continue
+						}
 						b2 := append([]byte(nil), b...)
 						b2[len16.off], b2[len16.off+1] = byte(pl>>8), byte(pl)
 						f(&dcase{seed: sd, kind: "field-fixlen", b: b2, aux: sd.aux, measure: true,
 							desc:   fmt.Sprintf("%s (%s) = %d in %d bytes, message length corrected", fl.name, fl.kind, v, len(enc)),
-							hasVal: true, fieldName: fl.name, fieldVal: v, len16At: len16.off})
+							hasVal: true, fieldName: fl.name, fieldVal: v, len16At: len16.off, class: clsFix})
 					}
 				}
 			}
 		}
 	}
-	// the element count handed to Parameters.Unmarshal by its callers
+	// the element count handed to Parameters.Unmarshal by its callers (what a caller passes is the peer's varint, unchecked)
 	if sd.codec == "parameters" {
-		for _, c := range []int{0, 1, 2, 3, 4, 1 << 16, 1 << 31, math.MaxInt64, -1, math.MinInt64} {
-			f(&dcase{seed: sd, kind: "count", b: orig, aux: c, measure: true, desc: fmt.Sprintf("count = %d", c), len16At: -1})
+		for _, c := range countValues {
+			if !s.next("count/count") {
+				continue
+			}
+			f(&dcase{seed: sd, kind: "count", b: orig, aux: c, measure: true, desc: fmt.Sprintf("count = %d", c), len16At: -1, class: "count/count"})
 		}
 	}
 }
+
+// countValues: element counts handed to Parameters.Unmarshal, small first.
+var countValues = []int{0, 1, 2, 3, 4, 127, 128, 16383, 16384, 1 << 16, 1 << 20, 1 << 24, 1 << 31, 1 << 40, 1 << 59, 1 << 62, math.MaxInt64, -1, math.MinInt64}
 
 var digits = regexp.MustCompile(`[0-9]+`)
 var hexes = regexp.MustCompile(`0x[0-9a-fA-F]+`)
@@ -368,7 +469,11 @@ type wsummary struct {
 	MaxAllocIn map[string]string `json:"maxAllocIn"` // the case that produced it
 	KindCounts map[string]int64  `json:"kindCounts"`
 	LastIndex  int64             `json:"lastIndex"`
+	Skipped    int64             `json:"skipped"` // cases of a field class not run because an earlier case of the class killed a worker
 	SeedsLens  map[string]int    `json:"seedLens"`
+	// coordinator only
+	Deaths  map[string]int    `json:"-"` // wire type -> worker deaths (each one a violation)
+	Stopped map[string]string `json:"-"` // wire type -> why its enumeration was abandoned
 }
 
 func replayCase(c *dcase) map[string]any {
@@ -474,13 +579,27 @@ func fieldClass(desc string) string {
 	return strings.NewReplacer(" ", "", "(", "-", ")", "").Replace(desc)
 }
 
-// workerMain: `-worker <codec> -from N -progress file`.
-func workerMain(group string, from int64, progressFile string, thorough bool) {
-	// a hostile length must not take the machine down: 6 GiB of address space
-	_ = syscall.Setrlimit(syscall.RLIMIT_AS, &syscall.Rlimit{Cur: 6 << 30, Max: 6 << 30})
+// Address-space head room of a worker above what it has mapped at start. The largest allocation any decoder is entitled to is the
+// 10 MiB object payload; with 1 GiB a reservation of 2 GiB or more fails at once ("runtime: out of memory", the worker dies and
+// the death is attributed to the case) instead of being served and thrashing the machine, while anything up to several hundred
+// MiB is served (untouched fresh pages) and judged by the TotalAlloc oracle.
+const workerHeadroom = 256 << 20
+
+func vmSize() uint64 {
+	b, err := os.ReadFile("/proc/self/statm")
+	if err != nil {
+		return 0
+	}
+	var pages uint64
+	_, _ = fmt.Sscan(string(b), &pages)
+	return pages * uint64(os.Getpagesize())
+}
+
+// workerMain: `-worker <codec> -phase field|bulk -from N -progress file -skip class,class`.
+func workerMain(group, phase string, from int64, progressFile string, thorough bool, skip string) {
 	runtime.GOMAXPROCS(1)
 	debug.SetGCPercent(100)
-	var prog *uint64
+	var prog []uint64
 	if progressFile != "" {
 		f, err := os.OpenFile(progressFile, os.O_RDWR, 0)
 		if err != nil {
@@ -492,13 +611,44 @@ func workerMain(group string, from int64, progressFile string, thorough bool) {
 			fmt.Println("X\tcannot map progress file: " + err.Error())
 			os.Exit(3)
 		}
-		prog = (*uint64)(unsafe.Pointer(&mem[0]))
+		prog = unsafe.Slice((*uint64)(unsafe.Pointer(&mem[0])), 4)
+	}
+	// a hostile length must not take the machine down, and must fail fast
+	if vm := vmSize(); vm > 0 {
+		lim := vm + workerHeadroom
+		if err := syscall.Setrlimit(syscall.RLIMIT_AS, &syscall.Rlimit{Cur: lim, Max: lim}); err != nil {
+			fmt.Println("X\tcannot limit the address space: " + err.Error())
+			os.Exit(3)
+		}
+	} else {
+		fmt.Println("X\tcannot read /proc/self/statm")
+		os.Exit(3)
 	}
 	w := bufio.NewWriter(os.Stdout)
 	defer w.Flush()
 	sum := &wsummary{MaxAlloc: map[string]uint64{}, MaxAllocIn: map[string]string{}, KindCounts: map[string]int64{}, SeedsLens: map[string]int{}}
 	distinct := map[string]struct{}{}
-	idx := int64(-1)
+	sk := &sink{phase: phase, idx: -1, from: from, skip: map[string]bool{}}
+	for _, c := range strings.Split(skip, ",") {
+		if c != "" {
+			sk.skip[c] = true
+		}
+	}
+	sk.f = func(c *dcase) {
+		if prog != nil {
+			atomic.StoreUint64(&prog[1], uint64(sum.Cases))
+			atomic.StoreUint64(&prog[2], uint64(sk.nskip))
+			atomic.StoreUint64(&prog[0], uint64(sk.idx)+1) // index+1 of the case being run
+		}
+		var vs []wviol
+		runCase(c, &vs, sum, distinct)
+		sum.Cases++
+		for _, v := range vs {
+			buf, _ := json.Marshal(v)
+			fmt.Fprintf(w, "V\t%s\n", buf)
+			w.Flush()
+		}
+	}
 	sds := seeds()
 	for i := range sds {
 		sd := &sds[i]
@@ -506,25 +656,10 @@ func workerMain(group string, from int64, progressFile string, thorough bool) {
 			continue
 		}
 		sum.SeedsLens[sd.name] = len(sd.b.b)
-		forEachCase(sd, thorough, func(c *dcase) {
-			idx++
-			if idx < from {
-				return
-			}
-			if prog != nil {
-				atomic.StoreUint64(prog, uint64(idx)+1) // index+1 of the case being run
-			}
-			var vs []wviol
-			runCase(c, &vs, sum, distinct)
-			sum.Cases++
-			for _, v := range vs {
-				buf, _ := json.Marshal(v)
-				fmt.Fprintf(w, "V\t%s\n", buf)
-				w.Flush()
-			}
-		})
+		forEachCase(sd, thorough, sk)
 	}
-	sum.LastIndex = idx
+	sum.LastIndex = sk.idx
+	sum.Skipped = sk.nskip
 	for k := range distinct {
 		sum.Distinct = append(sum.Distinct, k)
 	}
@@ -533,23 +668,24 @@ func workerMain(group string, from int64, progressFile string, thorough bool) {
 	fmt.Fprintf(w, "S\t%s\n", buf)
 }
 
-// describeCase returns the replay description of case number n of a group (used after a worker died).
-func describeCase(group string, n int64, thorough bool) map[string]any {
-	idx := int64(-1)
+// describeCase returns the replay description of case number n of a group's phase (used after a worker died).
+func describeCase(group, phase string, n int64, thorough bool) map[string]any {
 	var found map[string]any
+	sk := &sink{phase: phase, idx: -1, from: n}
+	sk.f = func(c *dcase) {
+		if sk.idx == n && found == nil {
+			found = replayCase(c)
+			found["class"] = caseClass(c)
+		}
+		sk.from = math.MaxInt64 // nothing after it needs to be built
+	}
 	sds := seeds()
 	for i := range sds {
 		sd := &sds[i]
 		if sd.codec != group || found != nil {
 			continue
 		}
-		forEachCase(sd, thorough, func(c *dcase) {
-			idx++
-			if idx == n {
-				found = replayCase(c)
-				found["class"] = c.kind + "/" + fieldClass(c.desc)
-			}
-		})
+		forEachCase(sd, thorough, sk)
 	}
 	return found
 }
